@@ -118,6 +118,7 @@ class Kernel:
         self.harness_error = None
         self.finished = False
         self.time_driven = set()
+        self.program_exited = False  # os._exit() in the main process
 
     # ------------------------------------------------------------------ tasks
     def add_task(self, name, label, role, index, body):
@@ -272,7 +273,7 @@ class Kernel:
                         "%d consecutive idle waits (%.1f simulated s) with nothing else able to move; %s"
                         % (self.frozen_events, self.now - self.frozen_since, self._describe_blocked()),
                     )
-            if self.hang is not None or main_task.state == "done" or self.harness_error is not None:
+            if self.hang is not None or main_task.state == "done" or self.harness_error is not None or self.program_exited:
                 self.finished = True
                 return None
             acts = self.enabled_actions()
